@@ -20,6 +20,8 @@ from proto import A, dumps
 from run import Case, VERIF, REPO
 import zoo
 
+from kernels_tie import optional_is_equal as optional_obligation  # noqa: F401  (`is_equal` regenerated from node.py: optional bridge)
+
 PROPERTY = "C01"
 LEAN_MODULE = "PyOak.Props.C01"
 THEOREMS = ["PyOak.C01." + t for t in ["cid_eq_iff", "isEqual_iff", "cid_ignores", "cid_congr_kids",
